@@ -32,7 +32,7 @@ impl AssignAddTransform {
                     span,
                     op: BinaryOp::Add,
                     left: left_expr.clone().into(),
-                    right: assign.right.clone(),
+                    right: grouped_operand(&assign.right),
                 });
 
                 let result = BinaryAddTransform::to_dd_binary_expr(
@@ -53,5 +53,19 @@ impl AssignAddTransform {
                 }
             }
         }
+    }
+}
+
+// a += 1 + 2 is a + (1 + 2): a sum that becomes the right operand of the synthesized `+` keeps its
+// grouping (the printer emits the tree as given, without adding parentheses)
+fn grouped_operand(operand: &Expr) -> Box<Expr> {
+    match operand {
+        Expr::Bin(BinExpr {
+            op: BinaryOp::Add, ..
+        }) => Box::new(Expr::Paren(ParenExpr {
+            span: swc_common::DUMMY_SP,
+            expr: Box::new(operand.clone()),
+        })),
+        _ => Box::new(operand.clone()),
     }
 }
